@@ -73,7 +73,8 @@ fn insert_links(nodes: &mut Vec<Node>, st: &mut Ins, in_pre: bool) {
                 if !in_pre && w.chars().next().map(|c| c.is_ascii_uppercase()).unwrap_or(false) =>
             {
                 if st.n < st.max && st.rng.below(100) < st.prob {
-                    let href = match st.rng.below(7) {
+                    let href = match st.rng.below(8) {
+                        7 => w.clone(), // the link text is its own target (a bare URL used as link text)
                         4 => String::new(), // href="" is still a link (with an empty target)
                         5 => {
                             // wide characters and characters without a display width (controls,
